@@ -114,6 +114,7 @@ fn process(rx: mpsc::Receiver<(u32, Vec<u8>)>) {
         // only (glob inputs whose pattern x value product is large are legitimately slow and are
         // not run twice), never of a clock.
         let mut echo: Option<String> = None;
+        let mut echoed_equal = false;
         let heavy_glob = ENTRIES.get(id as usize).is_some_and(|e| e.traits & crate::mutate::T_GLOB != 0) && {
             let cut = bytes.iter().position(|b| *b == b'\n').unwrap_or(bytes.len());
             cut.saturating_mul(bytes.len() - cut) > 1_000_000
@@ -128,8 +129,27 @@ fn process(rx: mpsc::Receiver<(u32, Vec<u8>)>) {
                     .ok()
                     .and_then(|h| h.join().ok());
                 if let Some(a) = again {
-                    if a != outcome {
-                        echo = Some(format!("thread_echo_diff:{:016x}", crate::entries::fnv(a.as_bytes())));
+                    if a == outcome {
+                        echoed_equal = true;
+                    } else {
+                        // Different outcome on the new thread. Before this is taken for an effect of
+                        // this thread's history it must be told apart from an outcome that depends
+                        // on the hash keys (random per thread and per map: e.g. which of two
+                        // offending events an iteration over a hash set meets first): the call is
+                        // repeated six more times here and on six more brand-new threads; only
+                        // "always A here, always B there" is history dependence.
+                        let here: Vec<String> = (0..6).map(|_| call(e, &bytes)).collect();
+                        let there: Vec<Option<String>> = (0..6)
+                            .map(|_| {
+                                let b3 = bytes.clone();
+                                std::thread::Builder::new().name("echo".into()).stack_size(STACK_BYTES).spawn(move || call(e, &b3)).ok().and_then(|h| h.join().ok())
+                            })
+                            .collect();
+                        if here.iter().all(|x| *x == outcome) && there.iter().all(|x| x.as_ref() == Some(&a)) {
+                            echo = Some(format!("thread_echo_diff:{:016x}", crate::entries::fnv(a.as_bytes())));
+                        } else {
+                            echo = Some("thread_echo_unstable".to_string());
+                        }
                     }
                 }
             }
@@ -149,7 +169,8 @@ fn process(rx: mpsc::Receiver<(u32, Vec<u8>)>) {
         let mut o = out.lock();
         // the digest of the complete outcome lets the supervisor compare this call with the same
         // input delivered to a fresh process (history independence)
-        let _ = writeln!(o, "R\t{}\t{}\t{:016x}", esc(&class), esc(&canary), crate::entries::fnv(outcome.as_bytes()));
+        // "+e": the same complete outcome was also obtained on a brand-new thread (other hash keys)
+        let _ = writeln!(o, "R\t{}\t{}\t{:016x}{}", esc(&class), esc(&canary), crate::entries::fnv(outcome.as_bytes()), if echoed_equal { "+e" } else { "" });
         let _ = o.flush();
     }
 }
